@@ -466,4 +466,30 @@ theorem digFinish_refines (A : Arr) (scale : Int) (l : List Nat) (vn vd : Nat) (
         have hnot : ¬ ((r : Int) < limbOfPlace (flog10Rat vn vd)) := fun hh => by have := hmsd.mp hh; omega
         rw [if_neg hnot]
 
+
+/-- **toDigitsLimbs refines toDigitsBig** (∀ doubles `±m·2^e` with `m < 2^53`, `-1074 ≤ e ≤ 1024`, ∀ scales): whenever
+    the limb level stays inside its array and the scale is one `cif_value_init_numb` admits, it returns the digit
+    string of the exact-arithmetic level — including its `""` / `"0"` distinction for values that round to zero -/
+theorem toDigitsLimbs_refines (m : Nat) (e scale : Int) (l : List Nat) (hb : bitLen m ≤ 53) (he1 : -1074 ≤ e)
+    (he2 : e ≤ 1024) (h : toDigitsLimbs m e scale = some l) : l = toDigitsBig m e scale := by
+  unfold toDigitsLimbs at h
+  unfold toDigitsBig
+  by_cases hm : m = 0
+  · rw [if_pos hm] at h
+    rw [if_pos hm]
+    simp only [Option.some.injEq] at h
+    exact h.symm
+  · rw [if_neg hm] at h
+    rw [if_neg hm]
+    cases hs : digShift m e with
+    | none => rw [hs] at h; cases h
+    | some A =>
+      rw [hs] at h
+      simp only at h
+      obtain ⟨g, hrel⟩ := digShift_spec m e A hm hb he1 he2 hs
+      have ht := digShift_tight m e A hm hb hs
+      obtain ⟨hvn, hvd, hfuel⟩ := CifModel.Lemmas.NumbAutoinit.ratOfBin_pos m e hm he1
+      have := digFinish_refines A scale l _ _ g ht hvn hvd hfuel hrel h
+      rw [this]
+
 end CifModel.Lemmas.NumbLimbFinish
